@@ -7,7 +7,7 @@ from typing import Any, Dict, List, Optional, Set, Tuple
 
 from ..cfacts import CUnit
 from ..core import AnalysisError, Report
-from ..pyfacts import Repo, clone, inline_pure_helpers, inline_module_constants, inlined_statements, calls, dotted, norm, raise_guards, raised_class, walk_no_nested
+from ..pyfacts import Repo, ancestors, clone, inline_pure_helpers, inline_module_constants, inlined_statements, calls, dotted, norm, raise_guards, raised_class, walk_no_nested
 
 DM = 'flipjump/interpreter/io_devices/device_memory.py'
 SC = 'flipjump/interpreter/io_devices/ScreenIO.py'
@@ -179,15 +179,46 @@ def rule_screen_reject(rep: Report, repo: Repo) -> None:
     cl = repo.func(SC, 'InMemoryScreen._command_length')
     rep.check(isinstance(cl.body[-1], ast.Raise) and raised_class(cl.body[-1]) == 'IODeviceException', 'C19.SCREEN-REJECT', 'unknown-command',
               'the length lookup ends by rejecting unknown command bytes', f'{SC}:{cl.lineno}')
-    ur = repo.func(SC, 'InMemoryScreen._update_rectangle')
-    g = [norm(t) for t, r, _ in raise_guards(ur)]
-    first_store = min([n.lineno for n in ast.walk(ur) if isinstance(n, ast.Subscript) and isinstance(n.ctx, ast.Store)] or [0])
-    last_guard = max([t.lineno for t, r, _ in raise_guards(ur)] or [10 ** 9])
-    rep.check('x + rect_width > self.width or y + rect_height > self.height' in g and 'self.device_memory is None' in g and
-              any(dotted(c.func) == 'self._require_initialized_screen' for c in calls(ur)) and last_guard < first_store, 'C19.SCREEN-REJECT',
-              'update_rectangle', f'guards {g}; before the first pixel store={last_guard < first_store}', f'{SC}:{ur.lineno}')
-    st = [norm(n) for n in ast.walk(ur) if isinstance(n, ast.Subscript) and isinstance(n.ctx, ast.Store)]
-    rep.check(st == ['self.pixel_indices[(y + row) * self.width + (x + col)]'], 'C19.SCREEN-REJECT', 'update_rectangle:index', str(st), f'{SC}:{ur.lineno}',
+    # update_rectangle: at every pixel store the rectangle is known to lie inside the screen and the device memory to be attached
+    # (facts that dominate the store, whatever nesting / polarity / naming spells them); the stored index is
+    # (y + row) * width + (x + col), folded on a grid after the function's named temporaries are substituted
+    from ..excflow import GuardFacts, dominating_guards
+    from ..pyfacts import calls_in_order, eval_int_expr, inline_pure_temps
+    ur = inline_pure_temps(repo.func(SC, 'InMemoryScreen._update_rectangle'))
+    stores = [n for n in ast.walk(ur) if isinstance(n, ast.Subscript) and isinstance(n.ctx, ast.Store) and norm(n.value) == 'self.pixel_indices']
+    facts_ok = bool(stores)
+    idx_wrong: List[str] = []
+    for st_ in stores:
+        gf = GuardFacts(dominating_guards(st_))
+        facts_ok = facts_ok and gf.get('x + rect_width > self.width') is False and gf.get('y + rect_height > self.height') is False \
+            and gf.get('self.device_memory is None') is False
+        loops = {}
+        for a in ancestors(st_):
+            if isinstance(a, ast.For) and isinstance(a.target, ast.Name) and isinstance(a.iter, ast.Call) and dotted(a.iter.func) == 'range' and len(a.iter.args) == 1:
+                loops[a.target.id] = norm(a.iter.args[0])
+        rows = [k for k, v in loops.items() if v == 'rect_height']
+        cols = [k for k, v in loops.items() if v == 'rect_width']
+        if len(rows) != 1 or len(cols) != 1:
+            idx_wrong.append(f'the store is not inside a row loop over range(rect_height) and a column loop over range(rect_width): {loops}')
+            continue
+        for wv in (5, 8):
+            for xv, yv in ((0, 0), (2, 1)):
+                for rv, cv in ((0, 0), (1, 2)):
+                    try:
+                        got = eval_int_expr(st_.slice, {'self.width': wv, 'x': xv, 'y': yv, rows[0]: rv, cols[0]: cv, 'self.height': 9})
+                    except AnalysisError as ex:
+                        idx_wrong.append(str(ex))
+                        break
+                    if got != (yv + rv) * wv + (xv + cv):
+                        idx_wrong.append(f'width={wv} x={xv} y={yv} row={rv} col={cv}: index {got}')
+    order = [dotted(c.func) for c in calls_in_order(ur)]
+    init_first = 'self._require_initialized_screen' in order and all(order.index('self._require_initialized_screen') < i_ for i_, d in enumerate(order)
+                                                                       if d in ('self._read_packed_bytes', 'self._present'))
+    rep.check(facts_ok and init_first, 'C19.SCREEN-REJECT', 'update_rectangle',
+              f'inside-the-screen and attached-memory facts dominate every pixel store={facts_ok}; initialisation is required first={init_first}',
+              f'{SC}:{ur.lineno}', expected='rectangle overflow, a missing init and a missing memory hook are rejected before any pixel index')
+    rep.check(not idx_wrong and bool(stores), 'C19.SCREEN-REJECT', 'update_rectangle:index', idx_wrong[0] if idx_wrong else
+              f'{len(stores)} store(s) at (y+row)*width + (x+col), 8 grid cases each', f'{SC}:{ur.lineno}',
               expected='(y+row)*width + (x+col) with row < rect_height, col < rect_width (inside the checked box)')
     for q in ('_update_screen', '_update_screen_raw'):
         f = repo.func(SC, f'InMemoryScreen.{q}')
